@@ -1536,6 +1536,9 @@ func (a *Association) gatherOutboundFastRetransmissionPackets( //nolint:gocognit
 		// Update for retransmission
 		chunkPayload.nSent++
 		chunkPayload.since = now
+		// this transmission also serves a retransmission that loss detection
+		// (RACK, PTO probe) had asked for but the window has not let out yet
+		chunkPayload.retransmit = false
 		a.rackRemove(chunkPayload)
 		a.rackInsert(chunkPayload)
 
